@@ -96,10 +96,10 @@ example : sContains "http://example.org/activityLevel" provUri = false ∧ "http
     form. The harness compares this function with what rdflib really returns for every literal it meets. -/
 def rdflibHint : Term → Option LitHint
   | .lit lex (some d) none =>
-    if d == xsdU "boolean" then some ⟨if lex == "true" then "True" else if lex == "false" then "False" else lex, none⟩
-    else if d == xsdU "dateTime" then some ⟨lex, parseIso lex⟩
-    else some ⟨lex, none⟩
-  | .lit lex none _ => some ⟨lex, none⟩
+    if d == xsdU "boolean" then some { pv := if lex == "true" then "True" else if lex == "false" then "False" else lex }
+    else if d == xsdU "dateTime" then some { pv := lex, pdt := parseIso lex }
+    else some { pv := lex }
+  | .lit lex none _ => some { pv := lex }
   | _ => none
 
 /-- the URI `u` is read by the document's manager as a name with that URI (its namespace is declared on the
@@ -123,10 +123,7 @@ theorem c07_int (h : Heap) (doc : Nat) (m : NsMgr) (hd : Declared h doc (xsdU "i
     have d1 : (xsdU "int" == xsdU "QName") = false := by decide
     have d2 : (xsdU "int" == xsdU "gYear") = false := by decide
     have d3 : (xsdU "int" == xsdU "gYearMonth") = false := by decide
-    have d4 : (xsdU "int" == xsdU "double") = false := by decide
-    have d5 : (xsdU "int" == xsdU "float") = false := by decide
-    have d6 : (xsdU "int" == xsdU "decimal") = false := by decide
-    simp [b1, b2, c1, c2, d1, d2, d3, d4, d5, d6, hq, mkLiteral]
+    simp [b1, b2, c1, c2, d1, d2, d3, hq, mkLiteral]
   · have : (toString n).toInt? = some n := Int.toInt?_repr n
     simp only [autoLiteral, hp, parseXsd, parseInt, this]
 
@@ -144,10 +141,7 @@ theorem c07_str (h : Heap) (doc : Nat) (m : NsMgr) (hd : Declared h doc (xsdU "s
     have d1 : (xsdU "string" == xsdU "QName") = false := by decide
     have d2 : (xsdU "string" == xsdU "gYear") = false := by decide
     have d3 : (xsdU "string" == xsdU "gYearMonth") = false := by decide
-    have d4 : (xsdU "string" == xsdU "double") = false := by decide
-    have d5 : (xsdU "string" == xsdU "float") = false := by decide
-    have d6 : (xsdU "string" == xsdU "decimal") = false := by decide
-    simp [b1, b2, c1, c2, d1, d2, d3, d4, d5, d6, hq, mkLiteral]
+    simp [b1, b2, c1, c2, d1, d2, d3, hq, mkLiteral]
   · simp only [autoLiteral, hp, parseXsd]
 
 theorem c07_bool (h : Heap) (doc : Nat) (m : NsMgr) (hd : Declared h doc (xsdU "boolean")) (b : Bool) :
@@ -163,10 +157,7 @@ theorem c07_bool (h : Heap) (doc : Nat) (m : NsMgr) (hd : Declared h doc (xsdU "
     have d1 : (xsdU "boolean" == xsdU "QName") = false := by decide
     have d2 : (xsdU "boolean" == xsdU "gYear") = false := by decide
     have d3 : (xsdU "boolean" == xsdU "gYearMonth") = false := by decide
-    have d4 : (xsdU "boolean" == xsdU "double") = false := by decide
-    have d5 : (xsdU "boolean" == xsdU "float") = false := by decide
-    have d6 : (xsdU "boolean" == xsdU "decimal") = false := by decide
-    cases b <;> simp [b2, c1, c2, d1, d2, d3, d4, d5, d6, hq, mkLiteral]
+    cases b <;> simp [b2, c1, c2, d1, d2, d3, hq, mkLiteral]
   · have pt : parseBoolean "True" = some true := by decide +kernel
     have pf : parseBoolean "False" = some false := by decide +kernel
     cases b <;> simp [autoLiteral, hp, parseXsd, pt, pf]
@@ -185,10 +176,7 @@ theorem c07_uri (h : Heap) (doc : Nat) (m : NsMgr) (hd : Declared h doc (xsdU "a
     have d1 : (xsdU "anyURI" == xsdU "QName") = false := by decide
     have d2 : (xsdU "anyURI" == xsdU "gYear") = false := by decide
     have d3 : (xsdU "anyURI" == xsdU "gYearMonth") = false := by decide
-    have d4 : (xsdU "anyURI" == xsdU "double") = false := by decide
-    have d5 : (xsdU "anyURI" == xsdU "float") = false := by decide
-    have d6 : (xsdU "anyURI" == xsdU "decimal") = false := by decide
-    simp [b1, b2, c1, c2, d1, d2, d3, d4, d5, d6, hq, mkLiteral]
+    simp [b1, b2, c1, c2, d1, d2, d3, hq, mkLiteral]
   · simp only [autoLiteral, hp, parseXsd]
 
 /-- datetimes: given `parse(isoformat t) = t` (A-LEX, as in C01) -/
@@ -203,10 +191,7 @@ theorem c07_datetime (h : Heap) (doc : Nat) (m : NsMgr) (t : DateTime) (hiso : p
   have d1 : (xsdU "dateTime" == xsdU "QName") = false := by decide
   have d2 : (xsdU "dateTime" == xsdU "gYear") = false := by decide
   have d3 : (xsdU "dateTime" == xsdU "gYearMonth") = false := by decide
-  have d4 : (xsdU "dateTime" == xsdU "double") = false := by decide
-  have d5 : (xsdU "dateTime" == xsdU "float") = false := by decide
-  have d6 : (xsdU "dateTime" == xsdU "decimal") = false := by decide
-  simp [b1, c1, c2, d1, d2, d3, d4, d5, d6, hiso]
+  simp [b1, c1, c2, d1, d2, d3, hiso]
 
 /-- qualified-name values: a name whose namespace is declared on the document comes back with the same URI -/
 theorem c07_qname (h : Heap) (doc : Nat) (m : NsMgr) (hm : m.Inv1) (q : QName) (hd : Declared h doc q.uri) :
